@@ -62,7 +62,7 @@ func (l *ArrayListOfValue) CloneArrayList(capacity int) ArrayList {
 }
 
 func (l *ArrayListOfValue) SliceArrayList(from, to int) ArrayList {
-	n := (*l)[from:to]
+	n := (*l)[from:to:to]
 	return &n
 }
 
